@@ -652,6 +652,26 @@ func registerIntrinsics(e *Engine) {
 		ex.mapUpdate(s.m, a[1], a[2])
 		return nil
 	}
+	// maps.Clone's runtime-linked worker: a shallow copy of the map
+	I["maps.clone"] = func(ex *Exec, fn *ssa.Function, a []Value) Value {
+		iv, ok := a[0].(IfaceV)
+		if !ok {
+			ex.unsupported("maps.clone on %T", a[0])
+			return a[0]
+		}
+		m, _ := iv.val.(*MapV)
+		if m == nil {
+			return iv
+		}
+		ex.mapN++
+		c := &MapV{id: ex.mapN, kt: m.kt, vt: m.vt}
+		for _, e := range m.ents {
+			if !e.deleted {
+				c.ents = append(c.ents, &mapEnt{key: e.key, val: e.val})
+			}
+		}
+		return IfaceV{typ: iv.typ, val: c}
+	}
 	I["(*sync.Map).Delete"] = func(ex *Exec, fn *ssa.Function, a []Value) Value {
 		s := ex.syncOf(a[0].(PtrV))
 		if s.m != nil {
